@@ -52,7 +52,7 @@ def gen_dep_cases(rng, n):
                 if ups:
                     j = rng.choice(ups)
                     emb = [["o", j]] + [e for e in emb if not (e[0] in ("o", "o.pre") and True)]
-            tasks.append({"cls": cls, "k": i * 1000 + c, "embeds": emb})
+            tasks.append({"cls": cls, "k": i * 1000 + c, "embeds": emb, "copy": rng.random() < 0.2})
         cases.append({"tasks": tasks})
     return cases
 
@@ -93,7 +93,7 @@ def _deps_part(ctx, n):
         ctx.case({"deps_case": case}, any(len(t["embeds"]) >= 2 for t in case["tasks"]))
         deps_monitor(ctx, case, rec)
         good.append((case, rec))
-    if len(good) < len(cases) * 0.9:
+    if len(good) < len(cases) * 0.9 and not ctx.monitor_failures:
         raise RuntimeError(f"too many failing dependency cases: {next(r['error'] for r in recs if r['error'])}")
     try:
         mouts = identlib.model_outputs(ctx, [r for _, r in good])
